@@ -152,6 +152,23 @@ func (ex *exec) global(g *ssa.Global) *value {
 	if r, ok := ex.globals[g]; ok {
 		return r
 	}
+	// package-level variables of interpreted foreign packages (strconv's tables, ...) are initialised on first use
+	if g.Pkg != nil && ex.interpPkgs[g.Pkg.Pkg.Path()] && !ex.pkgInited[g.Pkg] && !strings.HasPrefix(g.Name(), "init$") {
+		if ex.pkgInited == nil {
+			ex.pkgInited = map[*ssa.Package]bool{}
+		}
+		ex.pkgInited[g.Pkg] = true
+		if init := g.Pkg.Func("init"); init != nil && init.Blocks != nil {
+			ex.forceInit = true
+			func() {
+				defer func() { ex.forceInit = false }()
+				ex.callSSA(nil, 0, init, nil, nil)
+			}()
+		}
+		if r, ok := ex.globals[g]; ok {
+			return r
+		}
+	}
 	cell := zero(mustDeref(g.Type()))
 	ex.globals[g] = &cell
 	return &cell
@@ -598,7 +615,16 @@ func rootFn(fn *ssa.Function) *ssa.Function {
 func (ex *exec) callSSA(caller *frame, callpos token.Pos, fn *ssa.Function, args []value, env []value) value {
 	m := ex.meta(fn)
 	if m.skipInit {
-		return nil
+		if !ex.forceInit || fn.Pkg == nil || !ex.interpPkgs[fn.Pkg.Pkg.Path()] || ex.pkgInitRan[fn] {
+			return nil
+		}
+		// initialisation of an interpreted foreign package, requested by a first use of one of its variables
+		if ex.pkgInitRan == nil {
+			ex.pkgInitRan = map[*ssa.Function]bool{}
+		}
+		ex.pkgInitRan[fn] = true
+		ex.pkgInited[fn.Pkg] = true
+		m = &fnMeta{name: m.name, interpret: true, slots: m.slots, nslots: m.nslots}
 	}
 	if m.intr != nil {
 		r := m.intr(ex, caller, fn, args)
